@@ -20,7 +20,7 @@ T={
         "every API call and iterator step must end in Ok or one of the four classified errors; panics, overflow, aborts and Error::Internal are violations",
         "built with debug-assertions/overflow-checks; hangs are left to C06"),
  "C06":("bounded termination observation under a CPU-time watchdog with single-character-deletion growth test; seeded random quantifier-heavy patterns","4 C06",
-        "calls must return and iterators must respect len+1 / 2*len+1 and stay exhausted; a call is judged non-terminating only if it exceeds 0.5 s then 20 s of CPU and every single-character deletion of the minimal such input returns in < 2 ms",
+        "calls must return and iterators must respect len+1 / 2*len+1 and stay exhausted; a call is judged non-terminating only if it exceeds 0.5 s then 10 s of CPU and every single-character deletion of the minimal such input returns in < 2 ms",
         "liveness is only observed within bounds (inputs <= 8, nesting <= 3); finite exponential backtracking is deliberately not reported"),
  "C08":("differential: same engine with all compile-time shortcuts disabled through the verification hook; generators biased to each shortcut","4 C08",
         "all five APIs must agree value for value between the normal and the unoptimised compilation of the same pattern",
